@@ -16,15 +16,21 @@
    RESULTS (Section Mf; binary64 corollaries below it)
      tri, trap, lins, linz  : value in [0,1] (r_tri_range ...), exactly 1 on the core, exactly 0 outside the support
                               (r_ramp_core, r_ramp_support: the statements of the real-number theorems, verbatim).
-     s, z, pi               : the comparison is against the COMPUTED midpoint  mid a b = rnd (rnd (a + b) / 2).
-                              value in [0,1] under sz_ok a b (a condition on the parameters only: twice the squared
-                              rounded relative distance of the computed midpoint from either end is at most 1; over
-                              the reals both are 1/2);  exactly 1 / 0 on core / outside support under
-                              a <= mid < b (s), a < mid <= b (z); pi: core unconditional.
-                              WITHOUT the midpoint conditions the statements are FALSE IN BINARY64:
-                              b64_mf_s_refuted : a = 1 + 2^-52, b = 1 + 2^-51 (adjacent numbers): a + b is a tie that rounds to
-                              2b, the computed midpoint is b, and a_mf_s(b, a, b) = 2;   b64_mf_z_refuted likewise
-                              (a = 1 + 2^-51, b = 1 + 3 2^-52, a_mf_z(a, a, b) = 2).  The C returns the same values.
+     s, z, pi               : REPAIRED bodies (proposed_fixes/C13-4: x <= a and x >= b are tested before the COMPUTED
+                              midpoint  mid a b = rnd (rnd (a + b) / 2)).  Exactly 1 / 0 on core / outside support: the
+                              statements of the real-number theorems verbatim, NO midpoint condition (r_sz_core_support).
+                              Value in [0,1] under sz_in x a b: a condition on the executed quadratic branch only (for
+                              a < x < b: twice the squared rounded ratio is at most 1); it holds outside (a,b), follows
+                              from the old parameter condition sz_ok (sz_ok_in), and monotone rounding alone does NOT
+                              give it (mono_rnd_not_enough: a coarse monotone rounding with a_mf_s(1; 0, 2) = 2).
+                              In binary64 it holds for ALL binary64 numbers x, a, b (b64_sz_in, from MfMid64.v: the
+                              squared ratio is at most 11/16), so S, Z and pi lie in [0,1] with no side condition:
+                              b64_sz_range, b64_pi_range.
+                              The bodies AS FOUND (mf_s_orig / mf_z_orig: midpoint tested first) leave [0,1] in binary64:
+                              b64_sz_as_found_refuted : a = 1 + 2^-52, b = 1 + 2^-51 (adjacent numbers): a + b is a tie that
+                              rounds to 2b, the computed midpoint is b, and a_mf_s(b, a, b) = 2; likewise
+                              a = 1 + 2^-51, b = 1 + 3 2^-52, a_mf_z(a, a, b) = 2.  The unrepaired C returns the same values;
+                              the repaired bodies return 1 there (b64_sz_repaired_at_witnesses).
      gauss, gauss2, gbell, sig, psig : value in [0,1] under orc_ok;  dsig: equal slopes, ordered centres, E monotone.
                               (0 and 1 are attained in floating point: the open bounds of the real theorems do not survive.)
      operators on [0,1]^2   : not, cap, cap_algebra, cap_bounded, cup, cup_bounded, equ stay in [0,1];
@@ -34,7 +40,7 @@
 From Coq Require Import Reals ZArith List Lra Lia Bool.
 From Flocq Require Import Core.
 From LibaV Require Import Common.NumOps Common.ROps Common.RoundOps Common.RoundFlocq Common.RoundMono
-                          C13.R13Ops C13.MfDefs.
+                          C13.R13Ops C13.MfDefs C13.MfMid64.
 Local Open Scope R_scope.
 
 Definition Orc_ops (rnd : R -> R) (E : R -> R) (P : R -> R -> R) : NumOps R := {|
@@ -180,62 +186,101 @@ Section Mf.
   Hypothesis R2 : rnd 2 = 2.
   Hypothesis OK : orc_ok E P.
 
+  (* the condition of the midpoint-first code, on the parameters only (kept: it implies the pointwise condition below) *)
   Definition sz_ok (a b : R) : Prop :=
     2 * P (rnd (rnd (b - mid a b) / rnd (b - a))) 2 <= 1 /\ 2 * P (rnd (rnd (mid a b - a) / rnd (b - a))) 2 <= 1.
 
-  (* a squared rounded ratio, doubled, below a ratio with a larger numerator *)
-  Lemma sq_le p p' w : 0 <= p <= p' -> 0 <= w -> 2 * P (rnd (rnd p' / w)) 2 <= 1 ->
-    unitR (rnd (2 * P (rnd (rnd p / w)) 2)).
+  (* the repaired bodies reach a quadratic branch only for a < x < b; what that branch needs *)
+  Definition sz_in (x a b : R) : Prop :=
+    a < x < b ->
+    (mid a b <= x -> 2 * P (rnd (rnd (b - x) / rnd (b - a))) 2 <= 1) /\
+    (x <= mid a b -> 2 * P (rnd (rnd (x - a) / rnd (b - a))) 2 <= 1).
+
+  Lemma sz_in_outside x a b : x <= a \/ b <= x -> sz_in x a b.
+  Proof. intros H K. lra. Qed.
+
+  (* a squared rounded ratio below the squared rounded ratio with a larger numerator *)
+  Lemma sq_mono p p' w : 0 <= p <= p' -> 0 <= w -> P (rnd (rnd p / w)) 2 <= P (rnd (rnd p' / w)) 2.
   Proof.
-    intros [H0 H1] Hw H. apply (mrnd_01 rnd M).
+    intros [H0 H1] Hw.
     assert (I : 0 <= / w) by (destruct (Req_dec w 0) as [->|]; [rewrite Rinv_0; lra|left; apply Rinv_0_lt_compat; lra]).
     assert (A0 : 0 <= rnd p) by (apply (mrnd_ge0 rnd M); exact H0).
     assert (A1 : rnd p <= rnd p') by (apply (mrnd_le rnd M); exact H1).
     assert (B0 : 0 <= rnd (rnd p / w)) by (apply (mrnd_ge0 rnd M); apply Rmult_le_pos; assumption).
     assert (B1 : rnd (rnd p / w) <= rnd (rnd p' / w)) by (apply (mrnd_le rnd M); apply Rmult_le_compat_r; assumption).
-    pose proof (op_sq_ge0 _ _ OK (rnd (rnd p / w))). pose proof (op_sq_mono _ _ OK _ _ (conj B0 B1)). lra.
+    apply (op_sq_mono _ _ OK). split; assumption.
   Qed.
+
+  Lemma sz_ok_in x a b : sz_ok a b -> sz_in x a b.
+  Proof.
+    intros [HA HB] Hx. assert (W : 0 <= rnd (b - a)) by (apply (mrnd_ge0 rnd M); lra). split; intros Hm.
+    - pose proof (sq_mono (b - x) (b - mid a b) (rnd (b - a)) ltac:(lra) W). lra.
+    - pose proof (sq_mono (x - a) (mid a b - a) (rnd (b - a)) ltac:(lra) W). lra.
+  Qed.
+
+  (* from a bound c on the ratio of the rounded differences, c a number of the format with 2 c^2 <= 1 *)
+  Lemma sz_in_of_ratio c x a b : rnd c = c -> 2 * P c 2 <= 1 ->
+    (a < x < b -> (mid a b <= x -> rnd (b - x) / rnd (b - a) <= c) /\ (x <= mid a b -> rnd (x - a) / rnd (b - a) <= c)) ->
+    sz_in x a b.
+  Proof.
+    intros Fc Hc H Hx. destruct (H Hx) as [H1 H2].
+    assert (W : 0 <= rnd (b - a)) by (apply (mrnd_ge0 rnd M); lra).
+    assert (I : 0 <= / rnd (b - a)).
+    { destruct (Req_dec (rnd (b - a)) 0) as [->|]; [rewrite Rinv_0; lra|left; apply Rinv_0_lt_compat; lra]. }
+    assert (Q : forall p, 0 <= p -> rnd p / rnd (b - a) <= c -> 2 * P (rnd (rnd p / rnd (b - a))) 2 <= 1).
+    { intros p Hp Hr. assert (A0 : 0 <= rnd p) by (apply (mrnd_ge0 rnd M); exact Hp).
+      assert (B0 : 0 <= rnd (rnd p / rnd (b - a))) by (apply (mrnd_ge0 rnd M); apply Rmult_le_pos; assumption).
+      assert (B1 : rnd (rnd p / rnd (b - a)) <= c) by (rewrite <- Fc; apply (mrnd_le rnd M); exact Hr).
+      pose proof (op_sq_mono _ _ OK _ _ (conj B0 B1)). lra. }
+    split; intros Hm.
+    - apply Q; [lra|apply H1; exact Hm].
+    - apply Q; [lra|apply H2; exact Hm].
+  Qed.
+
+  Lemma sq_unit q : 2 * P q 2 <= 1 -> unitR (rnd (2 * P q 2)).
+  Proof. intros H. apply (mrnd_01 rnd M). pose proof (op_sq_ge0 _ _ OK q). lra. Qed.
 
   Lemma one_minus_unit v : unitR v -> unitR (rnd (1 - v)).
   Proof. intros [H0 H1]. apply (mrnd_01 rnd M). lra. Qed.
 
-  Theorem r_s_range x a b : a <= b -> sz_ok a b -> unitR (mf_s OO x a b).
+  Theorem r_s_range x a b : sz_in x a b -> unitR (mf_s OO x a b).
   Proof.
-    intros Hab [HA HB]. unfold mf_s, unitR. unfold_orc. lits. rewrite R2. fold (mid a b).
-    assert (W : 0 <= rnd (b - a)) by (apply (mrnd_ge0 rnd M); lra).
-    destruct (Rltb_spec (mid a b) x) as [A|A]; [destruct (Rltb_spec x b) as [B|B]|destruct (Rltb_spec a x) as [B|B]]; try lra.
-    - apply one_minus_unit. apply (sq_le (b - x) (b - mid a b)); [lra|exact W|exact HA].
-    - apply (sq_le (x - a) (mid a b - a)); [lra|exact W|exact HB].
+    intros H. unfold mf_s, unitR. unfold_orc. lits. rewrite R2. fold (mid a b).
+    destruct (Rleb_spec x a) as [A|A]; [lra|]. destruct (Rleb_spec b x) as [B|B]; [lra|].
+    destruct (H ltac:(lra)) as [HU HL].
+    destruct (Rltb_spec (mid a b) x) as [C|C].
+    - apply one_minus_unit. apply sq_unit. apply HU. lra.
+    - apply sq_unit. apply HL. lra.
   Qed.
 
-  Theorem r_z_range x a b : a <= b -> sz_ok a b -> unitR (mf_z OO x a b).
+  Theorem r_z_range x a b : sz_in x a b -> unitR (mf_z OO x a b).
   Proof.
-    intros Hab [HA HB]. unfold mf_z, unitR. unfold_orc. lits. rewrite R2. fold (mid a b).
-    assert (W : 0 <= rnd (b - a)) by (apply (mrnd_ge0 rnd M); lra).
-    destruct (Rltb_spec x (mid a b)) as [A|A]; [destruct (Rltb_spec a x) as [B|B]|destruct (Rltb_spec x b) as [B|B]]; try lra.
-    - apply one_minus_unit. apply (sq_le (x - a) (mid a b - a)); [lra|exact W|exact HB].
-    - apply (sq_le (b - x) (b - mid a b)); [lra|exact W|exact HA].
+    intros H. unfold mf_z, unitR. unfold_orc. lits. rewrite R2. fold (mid a b).
+    destruct (Rleb_spec b x) as [B|B]; [lra|]. destruct (Rleb_spec x a) as [A|A]; [lra|].
+    destruct (H ltac:(lra)) as [HU HL].
+    destruct (Rltb_spec x (mid a b)) as [C|C].
+    - apply one_minus_unit. apply sq_unit. apply HL. lra.
+    - apply sq_unit. apply HU. lra.
   Qed.
 
-  Theorem r_pi_range x a b c d : a <= b -> c <= d -> sz_ok a b -> sz_ok c d -> unitR (mf_pi OO x a b c d).
+  Theorem r_pi_range x a b c d : sz_in x a b -> sz_in x c d -> unitR (mf_pi OO x a b c d).
   Proof.
-    intros Hab Hcd H1 H2. unfold mf_pi. cbn [ltb gtb Orc_ops]. unfold gtb. cbn [ltb Orc_ops].
+    intros H1 H2. unfold mf_pi. cbn [ltb gtb Orc_ops]. unfold gtb. cbn [ltb Orc_ops].
     destruct (Rltb x b); [apply r_s_range; assumption|]. destruct (Rltb c x); [apply r_z_range; assumption|].
     unfold unitR. unfold_orc. lits. lra.
   Qed.
 
-  (* core and support: literal branches, reached when the computed midpoint separates the ends *)
+  (* core and support: the literal branches; the statements of the real-number theorems, no midpoint condition *)
   Theorem r_sz_core_support :
-    (forall x a b, mid a b < b -> b <= x -> mf_s OO x a b = 1) /\
-    (forall x a b, a <= mid a b -> x <= a -> mf_s OO x a b = 0) /\
-    (forall x a b, a < mid a b -> x <= a -> mf_z OO x a b = 1) /\
-    (forall x a b, mid a b <= b -> b <= x -> mf_z OO x a b = 0) /\
+    (forall x a b, a < b -> b <= x -> mf_s OO x a b = 1) /\
+    (forall x a b, x <= a -> mf_s OO x a b = 0) /\
+    (forall x a b, x <= a -> a < b -> mf_z OO x a b = 1) /\
+    (forall x a b, b <= x -> mf_z OO x a b = 0) /\
     (forall x a b c d, b <= x <= c -> mf_pi OO x a b c d = 1) /\
-    (forall x a b c d, a < b -> a <= mid a b -> x <= a -> mf_pi OO x a b c d = 0) /\
-    (forall x a b c d, b <= c -> c < d -> mid c d <= d -> d <= x -> mf_pi OO x a b c d = 0).
+    (forall x a b c d, a <= b -> c <= d -> b <= c ->
+       (x <= a /\ a < b \/ x < a \/ d <= x /\ c < d \/ d < x) -> mf_pi OO x a b c d = 0).
   Proof.
-    repeat split; intros; unfold mf_pi, mf_s, mf_z; unfold_orc; lits; rewrite ?R2; fold (mid a b); try fold (mid c d);
-      rcases; try reflexivity; try lra.
+    repeat split; intros; unfold mf_pi, mf_s, mf_z; unfold_orc; lits; rcases; try reflexivity; try lra.
   Qed.
 
   (* ---------------------------------------------------------------- the families built on exp / pow *)
@@ -373,13 +418,33 @@ Proof.
   - apply (r_linz_range rnd64 (fun x => x) (fun x _ => x) mono_rnd_binary64); apply nz64; assumption.
 Qed.
 
-Corollary b64_sz_range x a b : a <= b ->
-  sz_ok rnd64 (fun x y => rnd64 (Rpow x y)) a b ->
+(* binary64: the pointwise condition holds for ALL binary64 numbers x, a, b (MfMid64.v: the ratio of the rounded
+   differences on the executed branch is at most 11/16, and 2 (11/16)^2 = 242/256) *)
+Lemma b64_sz_in x a b : rnd64 x = x -> rnd64 a = a -> rnd64 b = b ->
+  sz_in rnd64 (fun x y => rnd64 (Rpow x y)) x a b.
+Proof.
+  intros Fx Fa Fb.
+  apply (sz_in_of_ratio rnd64 _ _ mono_rnd_binary64 (orc_ok_rounded rnd64 mono_rnd_binary64) (11 / 16)).
+  - exact rnd64_11_16.
+  - rewrite Rpow_2. replace (11 / 16 * (11 / 16)) with (121 / 256) by lra. rewrite rnd64_121_256. lra.
+  - intros H. unfold mid. split; intros Hm.
+    + apply b64_upper_ratio; assumption.
+    + apply b64_lower_ratio; assumption.
+Qed.
+
+Corollary b64_sz_range x a b : rnd64 x = x -> rnd64 a = a -> rnd64 b = b ->
   unitR (mf_s (Rnd13_ops rnd64) x a b) /\ unitR (mf_z (Rnd13_ops rnd64) x a b).
 Proof.
-  intros Hab H. split.
-  - apply (r_s_range rnd64 _ _ mono_rnd_binary64 rnd64_2 (orc_ok_rounded rnd64 mono_rnd_binary64)); assumption.
-  - apply (r_z_range rnd64 _ _ mono_rnd_binary64 rnd64_2 (orc_ok_rounded rnd64 mono_rnd_binary64)); assumption.
+  intros Fx Fa Fb. pose proof (b64_sz_in x a b Fx Fa Fb) as H. split.
+  - apply (r_s_range rnd64 _ _ mono_rnd_binary64 rnd64_2 (orc_ok_rounded rnd64 mono_rnd_binary64)); exact H.
+  - apply (r_z_range rnd64 _ _ mono_rnd_binary64 rnd64_2 (orc_ok_rounded rnd64 mono_rnd_binary64)); exact H.
+Qed.
+
+Corollary b64_pi_range x a b c d : rnd64 x = x -> rnd64 a = a -> rnd64 b = b -> rnd64 c = c -> rnd64 d = d ->
+  unitR (mf_pi (Rnd13_ops rnd64) x a b c d).
+Proof.
+  intros Fx Fa Fb Fc Fd.
+  apply (r_pi_range rnd64 _ _ mono_rnd_binary64 rnd64_2 (orc_ok_rounded rnd64 mono_rnd_binary64)); apply b64_sz_in; assumption.
 Qed.
 
 Corollary b64_smooth_range :
@@ -409,7 +474,7 @@ Corollary b64_operators a b : unitR a -> unitR b ->
   unitR (fuzzy_equ (Rnd_ops rnd64) a b).
 Proof. exact (r_operators rnd64 (fun x => x) (fun x _ => x) mono_rnd_binary64 rnd64_2 a b). Qed.
 
-(* ------------------------------------------------------------------ s and z leave [0,1] in binary64 *)
+(* ------------------------------------------------------------------ s and z AS FOUND leave [0,1] in binary64 *)
 Definition u52 : R := / 4503599627370496.      (* 2^-52: the spacing of binary64 numbers in [1,2) *)
 Lemma u52_pos : 0 < u52. Proof. unfold u52. lra. Qed.
 Lemma u52_bpow : u52 = bpow radix2 (-52). Proof. reflexivity. Qed.
@@ -437,10 +502,10 @@ Proof. replace ((2 + 4 * u52) / 2) with (1 + IZR 2 * u52) by lra. apply rnd64_1p
 Lemma s_w3 : rnd64 (1 + 2 * u52 - (1 + u52)) = u52.
 Proof. replace (1 + 2 * u52 - (1 + u52)) with u52 by ring. exact rnd64_u52. Qed.
 
-Lemma mf_s_b64_witness : mf_s (Rnd13_ops rnd64) (1 + 2 * u52) (1 + u52) (1 + 2 * u52) = 2.
+Lemma mf_s_b64_witness : mf_s_orig (Rnd13_ops rnd64) (1 + 2 * u52) (1 + u52) (1 + 2 * u52) = 2.
 Proof.
   pose proof u52_pos as U.
-  unfold mf_s, Rnd13_ops. unfold_orc. rewrite !rnd64_2, s_w1, s_w2.
+  unfold mf_s_orig, Rnd13_ops. unfold_orc. rewrite !rnd64_2, s_w1, s_w2.
   destruct (Rltb_spec (1 + 2 * u52) (1 + 2 * u52)) as [A|A]; [lra|].
   destruct (Rltb_spec (1 + u52) (1 + 2 * u52)) as [B|B]; [|lra].
   rewrite s_w3. replace (u52 / u52) with 1 by (field; lra).
@@ -459,45 +524,99 @@ Qed.
 Lemma z_w3 : rnd64 (1 + 3 * u52 - (1 + 2 * u52)) = u52.
 Proof. replace (1 + 3 * u52 - (1 + 2 * u52)) with u52 by ring. exact rnd64_u52. Qed.
 
-Lemma mf_z_b64_witness : mf_z (Rnd13_ops rnd64) (1 + 2 * u52) (1 + 2 * u52) (1 + 3 * u52) = 2.
+Lemma mf_z_b64_witness : mf_z_orig (Rnd13_ops rnd64) (1 + 2 * u52) (1 + 2 * u52) (1 + 3 * u52) = 2.
 Proof.
   pose proof u52_pos as U.
-  unfold mf_z, Rnd13_ops. unfold_orc. rewrite !rnd64_2, z_w1, s_w2.
+  unfold mf_z_orig, Rnd13_ops. unfold_orc. rewrite !rnd64_2, z_w1, s_w2.
   destruct (Rltb_spec (1 + 2 * u52) (1 + 2 * u52)) as [A|A]; [lra|].
   destruct (Rltb_spec (1 + 2 * u52) (1 + 3 * u52)) as [B|B]; [|lra].
   rewrite z_w3. replace (u52 / u52) with 1 by (field; lra).
   rewrite rnd64_1, Rpow_2, Rmult_1_r, rnd64_1, Rmult_1_r. exact rnd64_2.
 Qed.
 
-Theorem b64_mf_s_refuted : exists x a b,
-  rnd64 x = x /\ rnd64 a = a /\ rnd64 b = b /\ a < b /\ b <= x /\ mf_s (Rnd13_ops rnd64) x a b = 2.
+Theorem b64_mf_s_as_found_refuted : exists x a b,
+  rnd64 x = x /\ rnd64 a = a /\ rnd64 b = b /\ a < b /\ b <= x /\ mf_s_orig (Rnd13_ops rnd64) x a b = 2.
 Proof.
   pose proof u52_pos as U. exists (1 + 2 * u52), (1 + u52), (1 + 2 * u52).
   pose proof (rnd64_1pk 1 ltac:(lia)) as F1. pose proof (rnd64_1pk 2 ltac:(lia)) as F2. rewrite Rmult_1_l in F1.
   repeat split; try assumption; try lra. exact mf_s_b64_witness.
 Qed.
 
-Theorem b64_mf_z_refuted : exists x a b,
-  rnd64 x = x /\ rnd64 a = a /\ rnd64 b = b /\ a < b /\ x <= a /\ mf_z (Rnd13_ops rnd64) x a b = 2.
+Theorem b64_mf_z_as_found_refuted : exists x a b,
+  rnd64 x = x /\ rnd64 a = a /\ rnd64 b = b /\ a < b /\ x <= a /\ mf_z_orig (Rnd13_ops rnd64) x a b = 2.
 Proof.
   pose proof u52_pos as U. exists (1 + 2 * u52), (1 + 2 * u52), (1 + 3 * u52).
   pose proof (rnd64_1pk 2 ltac:(lia)) as F2. pose proof (rnd64_1pk 3 ltac:(lia)) as F3.
   repeat split; try assumption; try lra. exact mf_z_b64_witness.
 Qed.
 
+(* the repaired bodies at the same inputs: the literal branches *)
+Lemma b64_sz_repaired_at_witnesses :
+  mf_s (Rnd13_ops rnd64) (1 + 2 * u52) (1 + u52) (1 + 2 * u52) = 1 /\
+  mf_z (Rnd13_ops rnd64) (1 + 2 * u52) (1 + 2 * u52) (1 + 3 * u52) = 1.
+Proof.
+  pose proof u52_pos as U.
+  pose proof (r_sz_core_support rnd64 (fun x => rnd64 (exp x)) (fun x y => rnd64 (Rpow x y)) mono_rnd_binary64) as (S1 & _ & Z1 & _).
+  split; [apply S1; lra|apply Z1; lra].
+Qed.
+
+(* ------------------------------------------------------------------ monotone rounding alone is not enough *)
+(* a coarse rounding: the identity outside (-1,1); inside, to the nearest of -1, 0, 1 (halves away from zero).  It is
+   monotone, odd, fixes 0, 1, 2, the correctly rounded oracles satisfy orc_ok - and the repaired a_mf_s(1; 0, 2) is 2:
+   the computed midpoint is 1 = x, the ratio 1/2 rounds to 1.  This is why the generic range theorems keep sz_in. *)
+Definition rndS (t : R) : R :=
+  if Rle_dec 1 t then t else if Rle_dec t (-1) then t
+  else if Rle_dec (/ 2) t then 1 else if Rle_dec t (- / 2) then -1 else 0.
+
+Lemma mono_rnd_S : mono_rnd rndS.
+Proof.
+  constructor.
+  - intros x y H. unfold rndS.
+    destruct (Rle_dec 1 x), (Rle_dec x (-1)), (Rle_dec (/ 2) x), (Rle_dec x (- / 2)),
+             (Rle_dec 1 y), (Rle_dec y (-1)), (Rle_dec (/ 2) y), (Rle_dec y (- / 2)); lra.
+  - unfold rndS. destruct (Rle_dec 1 0), (Rle_dec 0 (-1)), (Rle_dec (/ 2) 0), (Rle_dec 0 (- / 2)); lra.
+  - unfold rndS. destruct (Rle_dec 1 1); lra.
+  - intros x. unfold rndS.
+    destruct (Rle_dec 1 x), (Rle_dec x (-1)), (Rle_dec (/ 2) x), (Rle_dec x (- / 2)),
+             (Rle_dec 1 (- x)), (Rle_dec (- x) (-1)), (Rle_dec (/ 2) (- x)), (Rle_dec (- x) (- / 2)); lra.
+Qed.
+
+Lemma rndS_ge1 t : 1 <= t -> rndS t = t.
+Proof. intros H. unfold rndS. destruct (Rle_dec 1 t); [reflexivity|lra]. Qed.
+Lemma rndS_half : rndS (/ 2) = 1.
+Proof. unfold rndS. destruct (Rle_dec 1 (/ 2)), (Rle_dec (/ 2) (-1)), (Rle_dec (/ 2) (/ 2)); lra. Qed.
+
+Theorem mono_rnd_not_enough : exists rnd,
+  mono_rnd rnd /\ rnd 2 = 2 /\ orc_ok (fun x => rnd (exp x)) (fun x y => rnd (Rpow x y)) /\
+  exists x a b, rnd x = x /\ rnd a = a /\ rnd b = b /\ a < b /\ nz rnd a b /\ mf_s (Rnd13_ops rnd) x a b = 2.
+Proof.
+  exists rndS. pose proof mono_rnd_S as M.
+  split; [exact M|]. split; [apply rndS_ge1; lra|]. split; [apply orc_ok_rounded; exact M|].
+  exists 1, 0, 2. split; [apply rndS_ge1; lra|]. split; [apply (mr_0 _ M)|]. split; [apply rndS_ge1; lra|]. split; [lra|].
+  split; [intros _; rewrite Rminus_0_r, rndS_ge1; lra|].
+  unfold mf_s, Rnd13_ops. unfold_orc. rewrite (mr_0 _ M), !(rndS_ge1 2) by lra.
+  rewrite Rplus_0_l, !Rminus_0_r, (rndS_ge1 2), (rndS_ge1 1) by lra.
+  replace (2 / 2) with 1 by lra. rewrite (rndS_ge1 1) by lra. replace (1 / 2) with (/ 2) by lra. rewrite rndS_half.
+  destruct (Rleb_spec 1 0) as [A|A]; [lra|]. destruct (Rleb_spec 2 1) as [B|B]; [lra|]. destruct (Rltb_spec 1 1) as [C|C]; [lra|].
+  rewrite Rpow_2, Rmult_1_r, (rndS_ge1 1), Rmult_1_r by lra. apply rndS_ge1. lra.
+Qed.
+
 (* ------------------------------------------------------------------ non-vacuity *)
-(* the midpoint condition sz_ok and the separation conditions hold in binary64 for a = 0, b = 4: mid = 2, both rounded
-   ratios are 1/2, their squares 1/4 *)
 Lemma rnd64_half : rnd64 (/ 2) = / 2.
 Proof. pose proof (rnd64_dyadic 1 (-1)) as H. change (bpow radix2 (-1)) with (/ 2) in H. rewrite Rmult_1_l in H. apply H; simpl; lia. Qed.
 Lemma rnd64_quarter : rnd64 (/ 4) = / 4.
 Proof. pose proof (rnd64_dyadic 1 (-2)) as H. change (bpow radix2 (-2)) with (/ 4) in H. rewrite Rmult_1_l in H. apply H; simpl; lia. Qed.
+Lemma rnd64_8th : rnd64 (/ 8) = / 8.
+Proof. pose proof (rnd64_dyadic 1 (-3)) as H. change (bpow radix2 (-3)) with (/ 8) in H. rewrite Rmult_1_l in H. apply H; simpl; lia. Qed.
+Lemma rnd64_16th : rnd64 (/ 16) = / 16.
+Proof. pose proof (rnd64_dyadic 1 (-4)) as H. change (bpow radix2 (-4)) with (/ 16) in H. rewrite Rmult_1_l in H. apply H; simpl; lia. Qed.
 Lemma rnd64_4 : rnd64 4 = 4.
 Proof. apply (rnd64_IZR 4). simpl. lia. Qed.
 
 Lemma mid64_0_4 : mid rnd64 0 4 = 2.
 Proof. unfold mid. rewrite Rplus_0_l, rnd64_4. replace (4 / 2) with 2 by lra. exact rnd64_2. Qed.
 
+(* the old parameter condition sz_ok holds in binary64 for a = 0, b = 4 (mid = 2, both rounded ratios 1/2, squares 1/4) *)
 Example sz_ok_ex : 0 <= 4 /\ sz_ok rnd64 (fun x y => rnd64 (Rpow x y)) 0 4 /\
                    0 < mid rnd64 0 4 < 4 /\ nz rnd64 0 4 /\ rnd64 0 = 0 /\ rnd64 4 = 4.
 Proof.
@@ -506,6 +625,27 @@ Proof.
   unfold sz_ok. rewrite mid64_0_4. rewrite !Rminus_0_r. replace (4 - 2) with 2 by lra.
   rewrite rnd64_2, rnd64_4. replace (2 / 4) with (/ 2) by lra. rewrite rnd64_half, Rpow_2.
   replace (/ 2 * / 2) with (/ 4) by lra. rewrite rnd64_quarter. lra.
+Qed.
+
+(* the pointwise condition at a point strictly inside (a,b), where a quadratic branch IS executed, and the value there *)
+Example sz_in_ex : 0 < 1 < 4 /\ sz_in rnd64 (fun x y => rnd64 (Rpow x y)) 1 0 4 /\
+                   mf_s (Rnd13_ops rnd64) 1 0 4 = / 8 /\ mf_z (Rnd13_ops rnd64) 1 0 4 = 7 / 8.
+Proof.
+  pose proof (mr_0 _ mono_rnd_binary64) as R0.
+  split; [lra|]. split; [apply b64_sz_in; [exact rnd64_1|exact R0|exact rnd64_4]|].
+  assert (F78 : rnd64 (7 / 8) = 7 / 8).
+  { replace (7 / 8) with (IZR 7 * bpow radix2 (-3)) by (simpl; lra). apply rnd64_dyadic; simpl; lia. }
+  split.
+  - unfold mf_s, Rnd13_ops. unfold_orc. rewrite R0, !rnd64_2, Rplus_0_l, !Rminus_0_r, rnd64_4, rnd64_1.
+    replace (4 / 2) with 2 by lra. rewrite rnd64_2.
+    destruct (Rleb_spec 1 0) as [A|A]; [lra|]. destruct (Rleb_spec 4 1) as [B|B]; [lra|]. destruct (Rltb_spec 2 1) as [C|C]; [lra|].
+    replace (1 / 4) with (/ 4) by lra. rewrite rnd64_quarter, Rpow_2. replace (/ 4 * / 4) with (/ 16) by lra.
+    rewrite rnd64_16th. replace (2 * / 16) with (/ 8) by lra. exact rnd64_8th.
+  - unfold mf_z, Rnd13_ops. unfold_orc. rewrite R0, !rnd64_2, Rplus_0_l, !Rminus_0_r, rnd64_4, !rnd64_1.
+    replace (4 / 2) with 2 by lra. rewrite rnd64_2.
+    destruct (Rleb_spec 4 1) as [B|B]; [lra|]. destruct (Rleb_spec 1 0) as [A|A]; [lra|]. destruct (Rltb_spec 1 2) as [C|C]; [|lra].
+    replace (1 / 4) with (/ 4) by lra. rewrite rnd64_quarter, Rpow_2. replace (/ 4 * / 4) with (/ 16) by lra.
+    rewrite rnd64_16th. replace (2 * / 16) with (/ 8) by lra. rewrite rnd64_8th. replace (1 - / 8) with (7 / 8) by lra. exact F78.
 Qed.
 
 (* a value strictly inside (0,1) computed in binary64: tri(1; 0, 2, 4) = rnd64 (rnd64 (1 - 0) / rnd64 (2 - 0)) = 1/2 *)
@@ -548,20 +688,36 @@ Proof.
 Qed.
 
 Theorem round_sz : forall rnd E P, mono_rnd rnd -> rnd 2 = 2 -> orc_ok E P ->
-  (forall x a b, a <= b -> sz_ok rnd P a b -> unitR (mf_s (Orc_ops rnd E P) x a b) /\ unitR (mf_z (Orc_ops rnd E P) x a b)) /\
-  (forall x a b c d, a <= b -> c <= d -> sz_ok rnd P a b -> sz_ok rnd P c d -> unitR (mf_pi (Orc_ops rnd E P) x a b c d)) /\
-  (forall x a b, mid rnd a b < b -> b <= x -> mf_s (Orc_ops rnd E P) x a b = 1) /\
-  (forall x a b, a <= mid rnd a b -> x <= a -> mf_s (Orc_ops rnd E P) x a b = 0) /\
-  (forall x a b, a < mid rnd a b -> x <= a -> mf_z (Orc_ops rnd E P) x a b = 1) /\
-  (forall x a b, mid rnd a b <= b -> b <= x -> mf_z (Orc_ops rnd E P) x a b = 0) /\
+  (forall x a b, sz_in rnd P x a b -> unitR (mf_s (Orc_ops rnd E P) x a b) /\ unitR (mf_z (Orc_ops rnd E P) x a b)) /\
+  (forall x a b c d, sz_in rnd P x a b -> sz_in rnd P x c d -> unitR (mf_pi (Orc_ops rnd E P) x a b c d)) /\
+  (forall x a b, (x <= a \/ b <= x \/ sz_ok rnd P a b) -> sz_in rnd P x a b) /\
+  (forall x a b, a < b -> b <= x -> mf_s (Orc_ops rnd E P) x a b = 1) /\
+  (forall x a b, x <= a -> mf_s (Orc_ops rnd E P) x a b = 0) /\
+  (forall x a b, x <= a -> a < b -> mf_z (Orc_ops rnd E P) x a b = 1) /\
+  (forall x a b, b <= x -> mf_z (Orc_ops rnd E P) x a b = 0) /\
   (forall x a b c d, b <= x <= c -> mf_pi (Orc_ops rnd E P) x a b c d = 1) /\
-  (forall x a b c d, a < b -> a <= mid rnd a b -> x <= a -> mf_pi (Orc_ops rnd E P) x a b c d = 0) /\
-  (forall x a b c d, b <= c -> c < d -> mid rnd c d <= d -> d <= x -> mf_pi (Orc_ops rnd E P) x a b c d = 0).
+  (forall x a b c d, a <= b -> c <= d -> b <= c ->
+     (x <= a /\ a < b \/ x < a \/ d <= x /\ c < d \/ d < x) -> mf_pi (Orc_ops rnd E P) x a b c d = 0).
 Proof.
   intros rnd E P M R2 OK.
   split; [intros; split; [apply r_s_range|apply r_z_range]; assumption|].
   split; [intros; apply r_pi_range; assumption|].
-  exact (r_sz_core_support rnd E P M R2).
+  split; [intros x a b [H|[H|H]]; [apply sz_in_outside; lra|apply sz_in_outside; lra|apply (sz_ok_in rnd E P M OK); assumption]|].
+  exact (r_sz_core_support rnd E P M).
+Qed.
+
+(* binary64, correctly rounded pow: no side condition at all for binary64 numbers *)
+Theorem b64_sz_pi_range :
+  (forall x a b, rnd64 x = x -> rnd64 a = a -> rnd64 b = b ->
+     unitR (mf_s (Rnd13_ops rnd64) x a b) /\ unitR (mf_z (Rnd13_ops rnd64) x a b)) /\
+  (forall x a b c d, rnd64 x = x -> rnd64 a = a -> rnd64 b = b -> rnd64 c = c -> rnd64 d = d ->
+     unitR (mf_pi (Rnd13_ops rnd64) x a b c d)) /\
+  (forall x a b, rnd64 x = x -> rnd64 a = a -> rnd64 b = b -> a < x < b ->
+     (rnd64 (rnd64 (a + b) / 2) <= x -> rnd64 (b - x) / rnd64 (b - a) <= 11 / 16) /\
+     (x <= rnd64 (rnd64 (a + b) / 2) -> rnd64 (x - a) / rnd64 (b - a) <= 11 / 16)).
+Proof.
+  split; [exact b64_sz_range|]. split; [exact b64_pi_range|].
+  intros x a b Fx Fa Fb H. split; intros Hm; [apply b64_upper_ratio|apply b64_lower_ratio]; assumption.
 Qed.
 
 Theorem round_smooth_range : forall rnd E P, mono_rnd rnd -> rnd 2 = 2 -> orc_ok E P ->
@@ -590,12 +746,17 @@ Theorem round_operators : forall rnd, mono_rnd rnd -> rnd 2 = 2 -> forall a b, u
   unitR (fuzzy_equ (Rnd_ops rnd) a b).
 Proof. intros rnd M R2. exact (r_operators rnd (fun x => x) (fun x _ => x) M R2). Qed.
 
-Theorem b64_sz_refuted :
-  (exists x a b, rnd64 x = x /\ rnd64 a = a /\ rnd64 b = b /\ a < b /\ b <= x /\ mf_s (Rnd13_ops rnd64) x a b = 2) /\
-  (exists x a b, rnd64 x = x /\ rnd64 a = a /\ rnd64 b = b /\ a < b /\ x <= a /\ mf_z (Rnd13_ops rnd64) x a b = 2) /\
-  mf_s (Rnd13_ops rnd64) (1 + 2 * u52) (1 + u52) (1 + 2 * u52) = 2 /\
-  mf_z (Rnd13_ops rnd64) (1 + 2 * u52) (1 + 2 * u52) (1 + 3 * u52) = 2.
-Proof. exact (conj b64_mf_s_refuted (conj b64_mf_z_refuted (conj mf_s_b64_witness mf_z_b64_witness))). Qed.
+Theorem b64_sz_as_found_refuted :
+  (exists x a b, rnd64 x = x /\ rnd64 a = a /\ rnd64 b = b /\ a < b /\ b <= x /\ mf_s_orig (Rnd13_ops rnd64) x a b = 2) /\
+  (exists x a b, rnd64 x = x /\ rnd64 a = a /\ rnd64 b = b /\ a < b /\ x <= a /\ mf_z_orig (Rnd13_ops rnd64) x a b = 2) /\
+  mf_s_orig (Rnd13_ops rnd64) (1 + 2 * u52) (1 + u52) (1 + 2 * u52) = 2 /\
+  mf_z_orig (Rnd13_ops rnd64) (1 + 2 * u52) (1 + 2 * u52) (1 + 3 * u52) = 2 /\
+  mf_s (Rnd13_ops rnd64) (1 + 2 * u52) (1 + u52) (1 + 2 * u52) = 1 /\
+  mf_z (Rnd13_ops rnd64) (1 + 2 * u52) (1 + 2 * u52) (1 + 3 * u52) = 1.
+Proof.
+  exact (conj b64_mf_s_as_found_refuted (conj b64_mf_z_as_found_refuted (conj mf_s_b64_witness (conj mf_z_b64_witness
+         b64_sz_repaired_at_witnesses)))).
+Qed.
 
 Theorem b64_instances :
   mono_rnd rnd64 /\ rnd64 2 = 2 /\ orc_ok (fun x => rnd64 (exp x)) (fun x y => rnd64 (Rpow x y)) /\
